@@ -193,9 +193,11 @@ def _cif_digest(c):
     return digest(norm(c.properties))
 
 
-def outcome(fn, c, A, ctx):
+def outcome(fn, c, A, ctx, reader=None):
     try:
         value = fn(c, A, ctx)
+        if reader is not None:
+            value = reader(value)
     except O.Unsupported:
         raise
     except Exception as e:  # noqa: BLE001 - a raised call is a legal outcome
@@ -232,7 +234,7 @@ def compute_reference(req):
     fn = O.ALL_QUERIES[op][0] if op in O.ALL_QUERIES else O.RAISERS[op]
     FS.install()
     os.makedirs(os.path.join(refdir, "sub"), exist_ok=True)  # inside the run's private tmpfs directory
-    return outcome(fn, Crystal(uc, sg, asym, titl=titl), A, {"dir": refdir})
+    return outcome(fn, Crystal(uc, sg, asym, titl=titl), A, {"dir": refdir}, O.READERS.get(op))
 
 
 class Sim:
@@ -262,6 +264,7 @@ class Sim:
         self.initial_digest = state_digest(self.world[0])
         self.titl0 = [self.world[0].titl]
         self.kw = [False]  # "keyword" crystals: see ops.KW_QUERIES
+        self.held = [[]]  # answers handed out under deferred inspection
         self.repeat = [{}]
         self.last_mut = [None]
         self.last_raise = [None]
@@ -296,7 +299,8 @@ class Sim:
                 raise HarnessError(str(e))
         # a directory of its own per reference query: a cache keyed by file
         # name must not be able to serve the reference an older file
-        return outcome(fn, Crystal(uc, sg, asym, titl=titl), self.A, {"dir": FS.dir("ref", str(self.n_steps))})
+        return outcome(fn, Crystal(uc, sg, asym, titl=titl), self.A, {"dir": FS.dir("ref", str(self.n_steps))},
+                       O.READERS.get(op))
 
     # ----------------------------------------------------------------- logging
     def _log(self, i, hi, op, out):
@@ -347,7 +351,7 @@ class Sim:
             return fb
         if op in O.ALL_QUERIES or op in O.RAISERS:
             fn = O.ALL_QUERIES[op][0] if op in O.ALL_QUERIES else O.RAISERS[op]
-            a = self._check_query(i, hi, op, fn, inject=st.get("inject"))
+            a = self._check_query(i, hi, op, fn, inject=st.get("inject"), defer=bool(st.get("defer")))
             fb["raised"] = a[1] if a[0] == "raised" else None
         elif op in O.MUTATORS:
             self._mutate(i, hi, op, fb, inject=st.get("inject"))
@@ -357,6 +361,8 @@ class Sim:
             self._derive(i, hi, op)
         elif op == "drop":
             self._drop(i, hi)
+        elif op == "inspect":
+            self._inspect(i, hi)
         elif op == "wfail":
             self._wfail(i, hi, st)
         else:
@@ -380,7 +386,49 @@ class Sim:
                     {"other_handle": j, "what": "state" if state_digest(o) != sd else "memo or stored cif_data"},
                 )  # fmt: skip
 
-    def _check_query(self, i, hi, op, fn, inject=None):
+    def _call_and_hold(self, i, hi, op, fn, pre, S, mask, others):
+        """Deferred inspection: the call is made now, its answer is only read
+        (normalised) at a later `inspect` step - an answer that was handed out
+        must not change afterwards, whatever happens to the crystal. Returns
+        None when the call raised (then it is judged at once as usual)."""
+        h = self.world[hi]
+        try:
+            raw = fn(h, self.A, {"dir": FS.dir("h%d" % hi)})
+        except O.Unsupported:
+            raise
+        except Exception:  # noqa: BLE001
+            return None
+        b = self.reference(pre, op, fn)
+        self.stats["checked_deferred"] += 1
+        self._log(i, hi, op + "~held", "ok")
+        if b[0] != "ok":
+            raise Violation("EXCEPTION_MISMATCH", i, op, hi, {"memo_mask": mask, "observed": "ok:(held)",
+                                                              "reference": outcome_digest(b), "after": self._after(hi)})
+        if state_digest(h) != S:
+            raise Violation("QUERY_MUTATED_STATE", i, op, hi, {"memo_mask": mask})
+        self.held[hi].append((i, op, raw, b))
+        self._check_others(i, hi, op, others)
+        return ("ok", None)
+
+    def _inspect(self, i, hi):
+        """Read every answer this handle handed out under deferred inspection."""
+        pending, self.held[hi] = self.held[hi], []
+        for i0, op, raw, b in pending:
+            try:
+                reader = O.READERS.get(op)
+                a = ("ok", norm(reader(raw) if reader else raw))
+            except Exception as e:  # noqa: BLE001 - reading the answer raised
+                a = ("raised", type(e).__name__)
+            self.stats["inspected_later"] += 1
+            if not outcomes_equal(a, b):
+                detail = {"what": "the answer handed out at step %d reads differently %d steps later" % (i0, i - i0),
+                          "observed": outcome_digest(a), "reference": outcome_digest(b), "after": self._after(hi)}
+                if a[0] == b[0] == "ok":
+                    detail["first_difference"] = first_difference(a[1], b[1])
+                raise Violation("STALE_ANSWER", i, op, hi, detail)
+        self._log(i, hi, "inspect", "%d" % len(pending))
+
+    def _check_query(self, i, hi, op, fn, inject=None, defer=False):
         h = self.world[hi]
         S = state_digest(h)
         others = self._others(hi)
@@ -389,10 +437,14 @@ class Sim:
         # (the name is the one the handle had when it entered the world: no
         # operation of the API renames a crystal)
         pre = rebuild_state(h, self.stats) + (self.titl0[hi],)
+        if defer and not inject:
+            held = self._call_and_hold(i, hi, op, fn, pre, S, mask, others)
+            if held is not None:
+                return held
         if inject:
             INJECTOR.arm(inject["target"], inject["nth"], inject["exc"])
         try:
-            a = outcome(fn, h, self.A, {"dir": FS.dir("h%d" % hi)})
+            a = outcome(fn, h, self.A, {"dir": FS.dir("h%d" % hi)}, O.READERS.get(op))
         finally:
             fired = INJECTOR.disarm() if inject else False
         if inject:
@@ -504,6 +556,7 @@ class Sim:
                 self.world.append(new)
                 self.titl0.append(new.titl)
                 self.kw.append(False)
+                self.held.append([])
                 self.repeat.append({})
                 self.last_mut.append(None)
                 self.last_raise.append(None)
@@ -534,6 +587,7 @@ class Sim:
                 self.world.append(new)
                 self.titl0.append(new.titl)
                 self.kw.append(False)
+                self.held.append([])
                 self.repeat.append({})
                 self.last_mut.append(None)
                 self.last_raise.append(None)
@@ -553,6 +607,7 @@ class Sim:
                 self.world.append(new)
                 self.titl0.append(new.titl)
                 self.kw.append(op == "stranger_kw")
+                self.held.append([])
                 self.repeat.append({})
                 self.last_mut.append(None)
                 self.last_raise.append(None)
@@ -574,6 +629,7 @@ class Sim:
         self.world.append(new)
         self.titl0.append(self.titl0[hi])
         self.kw.append(self.kw[hi])
+        self.held.append([])
         self.repeat.append(dict(self.repeat[hi]))
         self.last_mut.append(self.last_mut[hi])
         self.last_raise.append(self.last_raise[hi])
@@ -594,7 +650,7 @@ class Sim:
             self._log(i, hi, "drop", "skipped")
             return
         others = [(j, sd, md) for j, sd, md in self._others(len(self.world) - 1)]
-        for lst in (self.world, self.titl0, self.kw, self.repeat, self.last_mut, self.last_raise, self.armed):
+        for lst in (self.world, self.titl0, self.kw, self.held, self.repeat, self.last_mut, self.last_raise, self.armed):
             lst.pop()
         gc.collect()
         self.stats["fork:drop"] += 1
@@ -633,6 +689,7 @@ class Sim:
         self.world.append(new)
         self.titl0.append(new.titl)
         self.kw.append(False)
+        self.held.append([])
         self.repeat.append({})
         self.last_mut.append(None)
         self.last_raise.append(None)
